@@ -1,7 +1,7 @@
 (* Extract/Main.v — one request per line in, one response per line out. *)
 From Coq Require Import List Arith NArith Ascii String Bool.
 From PV Require Import Base.Bytes Base.Sexp AVM.Syntax AVM.Ops AVM.Machine AVM.Parse
-  Comp.Assemble Comp.WideRatio Src.Expr Src.Denote Comp.Lower Comp.Compile Extract.Wire Extract.WireExpr.
+  Comp.Assemble Comp.WideRatio Src.Expr Src.Denote Src.DenoteCall Comp.Lower Comp.Compile Extract.Wire Extract.WireExpr.
 Import ListNotations.
 Local Open Scope string_scope.
 
@@ -112,6 +112,49 @@ Definition do_denote (body : list sexp) : sexp :=
   | _ => err "denote: expected (ctx ...) (opts ...) (prog ...)"
   end.
 
+(* (denote-c (ctx ...) (opts ...) (prog ...)) : the source semantics with subroutine calls *)
+Definition do_denote_c (body : list sexp) : sexp :=
+  match body with
+  | [SList (Atom "ctx" :: cb); SList (Atom "opts" :: ob); pe] =>
+      match w_ctx cb, w_opts ob, w_prog pe with
+      | Some ri, Some (inl o), Some p =>
+          match model_assignment_locals o p with
+          | CErr e => SList [Atom "err"; p_cerr e]
+          | COk (asg, locals) =>
+              let look (u : N) : N :=
+                match find (fun x => N.eqb (fst x) u) asg with
+                | Some (_, n) => n
+                | None => (1000 + u)%N
+                end in
+              let env := mkEnv (ri_ctx ri) look (ri_msel ri) (p_subs p) false main_param in
+              let loc (rid : N) : list N :=
+                match find (fun x => match fst x with Some k => N.eqb k rid | None => false end) locals with
+                | Some (_, l) => l
+                | None => []
+                end in
+              let '(v, st) := run_main_c (mkCEnv env loc) (ri_fuel ri) (p_main p) (ri_state ri) in
+              SList [Atom "ran"; p_dverdict v;
+                     SList [Atom "stack"];
+                     SList (Atom "trace" :: map p_event (rev (s_trace st)));
+                     SList [Atom "scratch"; p_scratch (s_scratch st)];
+                     SList (Atom "locals" :: map (fun x => SList ((match fst x with Some k => sN k | None => Atom "main" end) :: map sN (snd x))) locals)]
+          end
+      | _, Some (inr e), _ => SList [Atom "err"; p_cerr e]
+      | _, _, _ => err "denote-c: unreadable request"
+      end
+  | _ => err "denote-c: expected (ctx ...) (opts ...) (prog ...)"
+  end.
+
+Definition do_opt_orphans (body : list sexp) : sexp :=
+  match body with
+  | [SList (Atom "opts" :: ob); pe] =>
+      match w_opts ob, w_prog pe with
+      | Some (inl o), Some p => SList (Atom "ok" :: map sN (if o_opt_slots o then opt_orphans o p else []))
+      | _, _ => err "opt-orphans: bad request"
+      end
+  | _ => err "opt-orphans: expected (opts ...) (prog ...)"
+  end.
+
 Definition dispatch (e : sexp) : sexp :=
   match e with
   | SList (Atom cmd :: body) =>
@@ -121,6 +164,8 @@ Definition dispatch (e : sexp) : sexp :=
       else if String.eqb cmd "tokens" then do_tokens body
       else if String.eqb cmd "compile" then do_compile body
       else if String.eqb cmd "denote" then do_denote body
+      else if String.eqb cmd "denote-c" then do_denote_c body
+      else if String.eqb cmd "opt-orphans" then do_opt_orphans body
       else err ("unknown command " ++ cmd)
   | _ => err "expected (command ...)"
   end.
